@@ -78,12 +78,12 @@ def _table(nrows, n0, n1, n2, ncols, c0, c1, c2, u, split):
 
 def table_roundtrip_q(nrows: int, n1: int, n2: int, ncols: int, c0: int, u: bool, split: bool, n0: int = 0) -> bool:
     """
-    pre: 0 <= nrows <= 3 and n1 in (0, 1, 3, 4) and n2 in (0, 2, 3, 4, 5) and 1 <= ncols <= 2
+    pre: 0 <= nrows <= 3 and n1 in (0, 1, 3, 4) and n2 in (0, 2, 3, 4, 5) and 0 <= ncols <= 2
     pre: 0 <= c0 <= 15 and 0 <= n0 <= 1
     pre: PART < 0 or nrows * 4 + (2 if u else 0) + (1 if split else 0) == PART
     post: _
     """
-    nrows, n1, n2, ncols = mark.pick(nrows, 0, 3), mark.pick_from(n1, (0, 1, 3, 4)), mark.pick_from(n2, (0, 2, 3, 4, 5)), mark.pick(ncols, 1, 2)
+    nrows, n1, n2, ncols = mark.pick(nrows, 0, 3), mark.pick_from(n1, (0, 1, 3, 4)), mark.pick_from(n2, (0, 2, 3, 4, 5)), mark.pick(ncols, 0, 2)
     c0, u, split, n0 = mark.pick(c0, 0, 15), mark.pickb(u), mark.pickb(split), mark.pick(n0, 0, 1)
     with mark.untraced():
         return _table(nrows, n0 * 4, n1, n2, ncols, c0, 6, 13, u, split)
@@ -91,14 +91,14 @@ def table_roundtrip_q(nrows: int, n1: int, n2: int, ncols: int, c0: int, u: bool
 
 def table_roundtrip(nrows: int, n0: int, n1: int, n2: int, ncols: int, c0: int, c1: int, c2: int, u: bool, split: bool) -> bool:
     """
-    pre: 0 <= nrows <= 3 and 0 <= n0 <= 6 and 0 <= n1 <= 6 and 0 <= n2 <= 6 and 1 <= ncols <= 2
+    pre: 0 <= nrows <= 3 and 0 <= n0 <= 6 and 0 <= n1 <= 6 and 0 <= n2 <= 6 and 0 <= ncols <= 2
     pre: 0 <= c0 <= 15 and c1 in (1, 6, 11) and c2 in (0, 13) and (nrows <= 2 or c0 % 2 == 0)
     pre: (nrows >= 1 or n0 == 0) and (nrows >= 2 or n1 == 0) and (nrows >= 3 or n2 == 0) and (nrows >= 1 or (c0 == 0 and c1 == 1 and c2 == 0))
     pre: nrows <= 2 or (c1 == 6 and c2 == 13)
     pre: PART < 0 or nrows * 4 + (2 if u else 0) + (1 if split else 0) == PART
     post: _
     """
-    nrows, ncols = mark.pick(nrows, 0, 3), mark.pick(ncols, 1, 2)
+    nrows, ncols = mark.pick(nrows, 0, 3), mark.pick(ncols, 0, 2)
     n0 = mark.pick(n0, 0, 6) if nrows >= 1 else 0
     n1 = mark.pick(n1, 0, 6) if nrows >= 2 else 0
     n2 = mark.pick(n2, 0, 6) if nrows >= 3 else 0
@@ -114,6 +114,7 @@ CHS = [(b'DEPT', b'FEET', 4, 1, 68), (b'GR  ', b'GAPI', 4, 1, 68), (b'SP  ', b'M
 EBS = {1: (66, [0, 1]), 4: (66, [1, 255, 0]), 5: (66, [1, 255, 0]), 8: (73, [60, -60]), 9: (65, [b'.1IN', b'FEET']), 11: (66, [64]), 12: (68, [-999.25, 0.0]),
        13: (66, [0, 1]), 14: (65, [b'.1IN', b'M   ']), 15: (66, [73, 68]), 3: (79, [16, -2]), 6: (68, [0.5]), 7: (65, [b'FEET'])}
 EB_ORDER = [1, 3, 4, 5, 6, 7, 8, 9, 11, 12, 13, 14, 15]
+EMPTY_OK = (3, 7, 9, 12, 14)
 
 
 def _dfsr(mask, vsel, nch, c0, split):
@@ -124,6 +125,9 @@ def _dfsr(mask, vsel, nch, c0, split):
             rc, vals = EBS[t]
             v = vals[vsel % len(vals)]
             size = len(v) if isinstance(v, bytes) else RepCode.lisSize(rc)
+            if vsel == 2 and t in EMPTY_OK:
+                # the block is written, but empty (size 0, no value): it reads back empty, not as the default of its type
+                size, v = 0, None
             ebs.setEntryBlock(LogiRec.EntryBlock(t, size, rc, v))
             model[t] = (size, rc, v)
     raw_ebs = ebs.lisBytes()
@@ -164,7 +168,7 @@ def _dfsr(mask, vsel, nch, c0, split):
 
 def dfsr_roundtrip(mask: int, vsel: int, nch: int, c0: int, split: bool) -> bool:
     """
-    pre: 0 <= mask < 8192 and 0 <= vsel <= 1 and nch in (1, 3) and c0 in (0, 3, 5)
+    pre: 0 <= mask < 8192 and 0 <= vsel <= 2 and nch in (1, 3) and c0 in (0, 3, 5)
     pre: PART < 0 or (mask // 512) == PART
     post: _
     """
@@ -181,7 +185,7 @@ def dfsr_roundtrip(mask: int, vsel: int, nch: int, c0: int, split: bool) -> bool
 
 def dfsr_roundtrip_q(mask: int, vsel: int, nch: int, c0: int, split: bool) -> bool:
     """
-    pre: 0 <= mask < 8192 and 0 <= vsel <= 1 and 1 <= nch <= 2 and c0 in (0, 3)
+    pre: 0 <= mask < 8192 and 0 <= vsel <= 2 and 1 <= nch <= 2 and c0 in (0, 3)
     pre: (mask // 64) % 8 in (0, 7) and mask // 512 in (0, 5, 15)
     pre: PART < 0 or (mask % 16) == PART
     post: _
@@ -191,6 +195,6 @@ def dfsr_roundtrip_q(mask: int, vsel: int, nch: int, c0: int, split: bool) -> bo
     for k, b in enumerate(bits):
         if b:
             m += 1 << k
-    vsel, nch, c0, split = mark.pick(vsel, 0, 1), mark.pick(nch, 1, 2), mark.pick_from(c0, (0, 3)), mark.pickb(split)
+    vsel, nch, c0, split = mark.pick(vsel, 0, 2), mark.pick(nch, 1, 2), mark.pick_from(c0, (0, 3)), mark.pickb(split)
     with mark.untraced():
         return _dfsr(m, vsel, nch, c0, split)
